@@ -285,4 +285,53 @@ theorem ws_finish (st : St) (sched : List Act) :
   obtain ⟨h4, _⟩ := ws_run (startEvents st) _ _ h3 w3
   exact ⟨h4, mainTodo_nil_run _ _ (mainTodo_nil_run _ _ hm2)⟩
 
+/-! ### the parts of a whole run -/
+
+def laterPart (st : St) (sched : List Act) (pick : List Name → Nat) : List Ev :=
+  waitPhase st sched ++ [Ev.shutdownbegin] ++ shutdownLog st.modules (threadsOf st) st.edges pick
+
+theorem run_log (cfg : Cfg) (fuel : Nat) (sched : List Act) (pick : List Name → Nat) :
+    (run cfg fuel sched pick).st = startup cfg fuel ∧
+    (run cfg fuel sched pick).log =
+      if (startup cfg fuel).errors.isEmpty then (startup cfg fuel).log ++ laterPart (startup cfg fuel) sched pick
+      else (startup cfg fuel).log := by
+  unfold run laterPart
+  simp only
+  split <;> simp [List.append_assoc]
+
+theorem wait_shape (st : St) (sched : List Act) : ∀ e ∈ waitPhase st sched,
+    isMainEv e = true ∨ isProEv e = true ∨ e = Ev.deadline ∨ e = Ev.ready ∨ ∃ t, e = Ev.timeout t :=
+  (ws_finish st sched).1.shape
+
+theorem later_no_init (st : St) (sched : List Act) (pick : List Name → Nat) :
+    ∀ e ∈ laterPart st sched pick, gotten e = none ∧ isInitEv e = false := by
+  intro e he
+  simp only [laterPart, shutdownLog, List.mem_append, List.mem_singleton, List.mem_map] at he
+  rcases he with (he | rfl) | ((⟨m, _, rfl⟩ | ⟨m, _, rfl⟩) | ⟨m, _, rfl⟩)
+  · rcases wait_shape st sched e he with h | h | rfl | rfl | ⟨t, rfl⟩
+    · cases e <;> simp [isMainEv] at h <;> exact ⟨rfl, rfl⟩
+    · cases e <;> simp [isProEv] at h <;> exact ⟨rfl, rfl⟩
+    · exact ⟨rfl, rfl⟩
+    · exact ⟨rfl, rfl⟩
+    · exact ⟨rfl, rfl⟩
+  all_goals exact ⟨rfl, rfl⟩
+
+theorem startup_ar (cfg : Cfg) (fuel : Nat) : ARfrom [] (startup cfg fuel).log := by
+  rw [startup_eq]
+  split
+  · exact (top_core cfg fuel).1.ar
+  · simp only [emit]
+    rw [ARfrom_snoc]
+    exact ⟨(top_core cfg fuel).1.ar, by intro d hd; cases hd⟩
+
+theorem startup_shape (cfg : Cfg) (fuel : Nat) : ∀ e ∈ (startup cfg fuel).log, isInitEv e = true ∨ e = Ev.exit := by
+  rw [startup_eq]
+  split
+  · intro e he; exact Or.inl ((top_core cfg fuel).1.shape e he)
+  · intro e he
+    simp only [emit, List.mem_append, List.mem_singleton] at he
+    rcases he with he | rfl
+    · exact Or.inl ((top_core cfg fuel).1.shape e he)
+    · exact Or.inr rfl
+
 end Frappy.Proofs.LifecycleWait
